@@ -491,3 +491,19 @@ twin("C18-T3", "C18", "self-reference test with the operands swapped", FW, "Proj
 mutant("C20-M9", "C20", "R20e", "coverage denominator starts as the compartment's own array", RS, "Result.get_coverage", "num_eligible[prog.name] = vals.copy()", "num_eligible[prog.name] = vals")
 mutant("C20-M10", "C20", "R20e", "equivalent allocation hands out the eligible array", RS, "Result.get_equivalent_alloc", "equivalent_alloc[prog] = uc * num_costed_coverage", "equivalent_alloc[prog] = num_eligible[prog]")
 twin("C20-T3", "C20", "np.array(vals) instead of vals.copy()", RS, "Result.get_coverage", "num_eligible[prog.name] = vals.copy()", "num_eligible[prog.name] = np.array(vals, dtype=float)")
+
+# ---- R06g / R06h (interpolation contract, two-sided clipping)
+mutant("C06-M20", "C06", "R06g", "linear interpolation extrapolates with zero on the left", U, "TimeSeries.interpolate", "return np.interp(t2, t1, v1, left=v1[0], right=v1[-1])", "return np.interp(t2, t1, v1, left=0.0, right=v1[-1])")
+mutant("C06-M21", "C06", "R06g", "linear interpolation with swapped arrays", U, "TimeSeries.interpolate", "return np.interp(t2, t1, v1, left=v1[0], right=v1[-1])", "return np.interp(t2, v1, t1, left=v1[0], right=v1[-1])")
+mutant("C06-M22", "C06", "R06g", "insert appends instead of keeping the years sorted", U, "TimeSeries.insert", "idx = bisect_left(self.t, t)", "idx = len(self.t)")
+mutant("C06-M23", "C06", "R06g", "value inserted at the front", U, "TimeSeries.insert", "self.vals.insert(idx, v)", "self.vals.insert(0, v)")
+mutant("C06-M24", "C06", "R06g", "assumption-only series returns NaN", U, "TimeSeries.interpolate", "return np.full(t2.shape, self.assumption)", "return np.full(t2.shape, np.nan)")
+mutant("C06-M25", "C06", "R06g", "Parameter.interpolate ignores the stored method", PA, "Parameter.interpolate", "method=self._interpolation_method", 'method="previous"')
+mutant("C06-M26", "C06", "R06g", "stepped interpolation fills with the last value on both sides", U, "TimeSeries.interpolate", "fill_value=(v1[0], v1[-1])", "fill_value=(v1[-1], v1[-1])")
+mutant("C06-M27", "C06", "R06h", "vector clip with the limits swapped", M, "Parameter.constrain", "np.clip(self.vals, self.limits[0], self.limits[1])", "np.clip(self.vals, self.limits[1], self.limits[0])")
+mutant("C06-M28", "C06", "R06h", "per-step clip ignores the upper limit", M, "Parameter.constrain", "if self.vals[ti] > self.limits[1]:", "if False:")
+mutant("C06-M29", "C06", "R06h", "per-step lower clip writes the upper limit", M, "Parameter.constrain", "                    self.vals[ti] = self.limits[0]", "                    self.vals[ti] = self.limits[1]")
+mutant("C06-M30", "C06", "R06h", "framework limits swapped", M, "Population.build", "par.limits = [max(-np.inf, min_value), min(np.inf, max_value)]", "par.limits = [max(-np.inf, max_value), min(np.inf, min_value)]")
+twin("C06-T6", "C06", "per-step clip written with the comparison turned round", M, "Parameter.constrain", "if self.vals[ti] < self.limits[0]:", "if self.limits[0] > self.vals[ti]:")
+twin("C06-T7", "C06", "interp result bound to a local first is not accepted by the exact-return rule: instead check keyword order", U, "TimeSeries.interpolate", "return np.interp(t2, t1, v1, left=v1[0], right=v1[-1])", "return np.interp(t2, t1, v1, right=v1[-1], left=v1[0])")
+twin("C06-T8", "C06", "np.interp result bound to a local, then returned", U, "TimeSeries.interpolate", "return np.interp(t2, t1, v1, left=v1[0], right=v1[-1])", "out = np.interp(t2, t1, v1, left=v1[0], right=v1[-1])\n                return out")
